@@ -124,6 +124,8 @@ def run_conc_check(pid, tier, n_sched, n_free, race=False, assumptions=()):
     log("[%s] MC lock protocol vs monitor: %d distinct states, %d generated, %.1fs" % (pid, mc["states"], mc["transitions"], mc["wall"]))
     live = core.run_mc("MC_Conc.tla", "MC_Conc_live.cfg", "%s-mc-live" % pid, workers=8)
     log("[%s] liveness (WriteControl with a finite deadline always returns, fairness of the control callers only): %d states" % (pid, live["states"]))
+    mut = core.expect_violation("MC_Conc.tla", "MC_Conc_mutation.cfg", "%s-mc-mutation" % pid)
+    log("[%s] sensitivity: the 'sticky check before the lock' deviation violates %s after %d states (as it must)" % (pid, mut["invariant"], mut["states"]))
     sim = core.run_sim("MC_Conc.tla", "MC_Conc_sim.cfg" if tier == "quick" else "MC_Conc_sim_thorough.cfg", "%s-sim" % pid, n_sched, 200, seed)
     scheds = sim["progs"]
     if not scheds:
@@ -170,7 +172,7 @@ def run_conc_check(pid, tier, n_sched, n_free, race=False, assumptions=()):
         path = core.save_replay(pid, "conc", prog, rj["trace"], "event %d not explained by WSConc: %s" % (rj["index"], json.dumps(rj["event"])[:500]),
                                 extra=dict(reproduced=ok))
         violations.append(path)
-    cov = dict(states=mc["states"] + live["states"], transitions=mc["transitions"] + live["transitions"], liveness_states=live["states"],
+    cov = dict(expected_violation=dict(config="MC_Conc_mutation.cfg", invariant=mut["invariant"]), states=mc["states"] + live["states"], transitions=mc["transitions"] + live["transitions"], liveness_states=live["states"],
                traces_validated_against_impl=res["traces"],
                trace_events=res["events"], simulated_model_states=sim["states"], schedules_replayed=len(conc), free_runs=len(free),
                race_detector=race, races=races, evaluations=res["traces"], distinct_nontrivial=len(conc),
